@@ -632,7 +632,7 @@ pub fn run(ctx: &Ctx) -> Verdict {
         "hidden-api shapes are observed through a recording unmock_with function in a partial mock".into(),
     ];
     v.subs.push(crate::replay_corpus(ctx, &|sub, case| replay(sub, case)));
-    let n = ctx.tier.pick(800, 16_000) as usize;
+    let n = ctx.tier.pick(1600, 32_000) as usize;
     let batches = n.div_ceil(1600);
     for b in 0..batches {
         let sub = if batches == 1 { "shapes".to_string() } else { format!("shapes-{b}") };
